@@ -14,6 +14,8 @@ import (
 	"bytes"
 	"crypto/sha256"
 	"errors"
+	"fmt"
+	"os"
 	"sort"
 	"testing"
 
@@ -43,6 +45,8 @@ type lhEnv struct {
 	app    *simapp.SimApp
 	module exported.LightClientModule
 	solo   *ibctesting.Solomachine
+	tmCS   exported.ClientState
+	tmCons exported.ConsensusState
 	snap   map[string]string // tracked contents of the IBC store (what the model has been told)
 }
 
@@ -65,6 +69,8 @@ func lhGet() *lhEnv {
 	}
 	e.module = m
 	e.solo = ibctesting.NewSolomachine(&testing.T{}, e.app.AppCodec(), "06-solomachine-0", "div", 1)
+	e.tmCS = e.a.GetClientState(e.path.EndpointA.ClientID)
+	e.tmCons, _ = e.a.GetConsensusState(e.path.EndpointA.ClientID, e.tmCS.(*ibctm.ClientState).LatestHeight)
 	lhSingleton = e
 	return e
 }
@@ -283,9 +289,7 @@ func (e *lhEnv) apply(in M) M {
 			_, err = e.app.IBCKeeper.UpdateClient(ctx, msg)
 			return lhRes(err)
 		case "msgupgrade":
-			cs := e.a.GetClientState(e.path.EndpointA.ClientID)
-			cons, _ := e.a.GetConsensusState(e.path.EndpointA.ClientID, cs.(*ibctm.ClientState).LatestHeight)
-			msg, err := clienttypes.NewMsgUpgradeClient(id, cs, cons, B(in, "p1"), B(in, "p2"), e.a.SenderAccount.GetAddress().String())
+			msg, err := clienttypes.NewMsgUpgradeClient(id, e.tmCS, e.tmCons, B(in, "p1"), B(in, "p2"), e.a.SenderAccount.GetAddress().String())
 			if err != nil {
 				panic(err)
 			}
@@ -300,6 +304,9 @@ func (e *lhEnv) apply(in M) M {
 	})
 	out, _ := res.(M)
 	if _, p := out["panic"]; p {
+		if os.Getenv("VERIF_DEBUG") != "" {
+			fmt.Fprintln(os.Stderr, "panic:", f, out["panic"])
+		}
 		out = M{"r": "panic"}
 	}
 	out["changed"] = before != e.digest()
@@ -491,7 +498,7 @@ func (e *lhEnv) genEnv(r *Rng) M {
 		return M{"f": "envallowed", "list": Pick(r, lists)}
 	case 1, 2, 3, 4, 5, 6:
 		k, _ := e.genKeyValue(r)
-		if len(k) == 0 {
+		if len(k) == 0 || string(k) == "clientParams" { // (GetParams panics without the params key: not a state governance can reach)
 			k = []byte("verif/a")
 		}
 		return M{"f": "envdel", "k": Hex(k)}
